@@ -4,6 +4,9 @@ import json, os, subprocess, sys
 ROOT = os.path.dirname(os.path.dirname(os.path.abspath(__file__)))
 
 CLAIMED = {
+ "C05": ("exploration", "exhaustive enumeration of (source, target, API form) over small chains + property-based testing, every call under a termination deadline, against shadow message / factor / scale oracles",
+         "Generated-input search: all (source level, target) pairs of chains with 1..4 (thorough 6) data levels, including key-level and unknown targets, through all 18 entry points of the three schemes, plus random parameter sets and sizes 2..4. Every call runs on a worker thread under a 20 s deadline because termination is part of the statement (the pinned rescale_to defect was found this way and fixed). Level, BGV correction factor, CKKS scale (bit-exact / 4 ulp), message and NTT-plaintext equality are checked; requests that must be refused must panic.",
+         "Trusted: noise model DESIGN.md §4; the deadline (>= 10^5 x the normal duration) is the only wall-clock oracle in the framework; rescale_to(current level) on the last level may either refuse or return the input (both accepted).", "DESIGN.md §6 C05"),
  "C03": ("exploration", "model-based property testing (proptest): generated CKKS programs next to a complex-vector shadow with a worst-case error bound; bit-exact scale oracle; injected ill-typed steps must be refused",
          "Generated-history search over CKKS programs (multiply, square, plaintext operations, relinearize, rescale, mod switch) on chains of 2..6 primes of mixed sizes with complex inputs of either sign. Every result's recorded scale is compared bit-for-bit with the single IEEE product or quotient the operation implies, its decoding with the shadow within an analysed worst-case bound (asserted only when scaled message plus error fits Q/2 with a 2^6 margin), and injected steps that mix levels, mismatched scales or overflowing scales must panic (the library's refusal convention) rather than return.",
          "Trusted: error model DESIGN.md §4, shadow::ckks_tolerance; the bound is worst-case, so relative errors below about N^2 2^-scale-bits pass (stated limit).", "DESIGN.md §6 C03"),
